@@ -64,6 +64,11 @@ Definition per_slice (step : Z) (ss : series) (sl : tr) : list range :=
 Definition sliced (fuel : nat) (step : Z) (ss : series) (arrival : list tr) : option (list range) :=
   finalize fuel step (flat_map (per_slice step ss) arrival).
 
+(** the same when every response lists its series in an order of its own ([ord sl] = the series of the response to
+    slice [sl], in response order): the API promises no order across requests *)
+Definition sliced_ord (fuel : nat) (step : Z) (ord : tr -> series) (arrival : list tr) : option (list range) :=
+  finalize fuel step (flat_map (fun sl => per_slice step (ord sl) sl) arrival).
+
 (** one series, as in the statement of the property *)
 Definition per_slice1 (step : Z) (fp : N) (pres : presence) (sl : tr) : list range :=
   per_slice step [(fp, pres)] sl.
